@@ -110,13 +110,23 @@ def b2s (b : Bool) : String := if b then "1" else "0"
 def roundUnit (n : Nat) : Rat := (64 * (n : Rat)) / ((2^53 : Nat) : Rat)
 
 /-- per-component tolerance tied to the solver's stated tolerance `tolS`, the projection distance `negpart`
-    and the componentwise size of the data: `tolS + negpart·Σ|A_ij| + 64·n·2⁻⁵³·(Σ_j |A_ij| x_j + |b_i|)` -/
-def tolVec (s : Sys) (tolS negpart : Rat) (xp : Vec) : Array Rat :=
+    and the size of the data.
+    Cholesky-based solvers (block, updown, BLOCK3; scaling-invariant backward error, componentwise):
+      `tolS + negpart·Σ_j|A_ij| + 64·n·2⁻⁵³·(Σ_j |A_ij| x_j + |b_i|)`
+    Lawson–Hanson (`lh`, SuiteSparseQR: backward error relative to the *column* norms, not invariant under scaling):
+      `tolS + 64·n·2⁻⁵³·(Σ_j ‖A_:j‖₁ x_j + ‖b‖₁)`  for every `i`. -/
+def tolVec (s : Sys) (lh : Bool) (tolS negpart : Rat) (xp : Vec) : Array Rat :=
+  if lh then
+    let col : Array Rat := ((List.range s.n).map fun j => sumTo s.n fun i => ratAbs (s.mat i j)).toArray
+    let mag := (sumTo s.n fun j => col.getD j 0 * xp j) + (sumTo s.n fun i => ratAbs (s.vec i))
+    ((List.range s.n).map fun i =>
+      tolS + negpart * (sumTo s.n fun j => ratAbs (s.mat i j)) + roundUnit s.n * mag).toArray
+  else
   ((List.range s.n).map fun i =>
     tolS + negpart * (sumTo s.n fun j => ratAbs (s.mat i j))
       + roundUnit s.n * ((sumTo s.n fun j => ratAbs (s.mat i j) * xp j) + ratAbs (s.vec i))).toArray
 
-def checkX (s : Sys) (tolS : Rat) (xs : Array Rat) : String :=
+def checkX (s : Sys) (lh : Bool) (tolS : Rat) (xs : Array Rat) : String :=
   let n := s.n
   let A := s.mat
   let b := s.vec
@@ -124,7 +134,7 @@ def checkX (s : Sys) (tolS : Rat) (xs : Array Rat) : String :=
   let negpart := (List.range n).foldl (fun m i => ratMax m (-(x i))) 0
   let xpA : Array Rat := xs.map fun v => if v < 0 then 0 else v
   let xp := vecOf xpA
-  let tolA := tolVec s tolS negpart xp
+  let tolA := tolVec s lh tolS negpart xp
   let tol := vecOf tolA
   let kkt := kktCheck n A b xp tol
   let gA : Array Rat := ((List.range n).map (grad n A b xp)).toArray
@@ -173,7 +183,7 @@ def step (st : Sys) (ws : List String) : Sys × String :=
         ({ s with ref := refA, refTried := true },
           s!"sys n={s.n} symm={b2s symm} spd={b2s spd} ref={b2s refA.isSome}")
       else (s, s!"sys n={s.n} symm={b2s symm} spd=na ref=na")
-  | "X" :: _id :: _solver :: tolb :: xs =>
+  | "X" :: _id :: solver :: tolb :: xs =>
     match tolb.toNat? >>= fun u => ratOfBits u.toUInt64 with
     | none => (st, "bad-input")
     | some tolS =>
@@ -183,7 +193,7 @@ def step (st : Sys) (ws : List String) : Sys × String :=
       | some us =>
         match us.mapM fun u => ratOfBits u.toUInt64 with
         | none => (st, "x finite=0")
-        | some xr => (st, checkX st tolS xr.toArray)
+        | some xr => (st, checkX st (solver == "0" || solver == "4") tolS xr.toArray)
   | ["B3", _id, tolb, mi] =>
     match tolb.toNat? >>= (fun u => ratOfBits u.toUInt64), mi.toNat? with
     | some tolS, some maxIter => (st, runB3 st tolS maxIter)
